@@ -20,12 +20,11 @@ open Opcua Opcua.Recv Opcua.Recv.Spec
 def isFinal (c : Chunk) : Prop := c.ct ≠ ctA ∧ c.ct ≠ ctC
 
 theorem step_final_single (cfg : Cfg) (bufs : Bufs) (c : Chunk) (hf : isFinal c)
-    (hempty : bufs.get c.req = []) (hfit : c.data.length ≤ cfg.maxMessageSize) :
+    (hempty : bufs.get c.req = []) (hfit : exceeds cfg.size0 c.data.length cfg.maxMessageSize = false) :
     (step cfg bufs c).2 = .merged c.req c.data ∧ (step cfg bufs c).1.get c.req = [] := by
   have h := step_get_same cfg bufs c
   have h1 : step1 cfg (bufs.get c.req) c = ([], .merged c.req c.data) := by
-    have hl : ¬ (c.data.length > cfg.maxMessageSize) := by omega
-    simp [step1, hf.1, hf.2, hempty, mergeChunks, hl]
+    simp [step1, hf.1, hf.2, hempty, mergeChunks, hfit]
   rw [h1] at h
   exact ⟨(Prod.mk.inj h).2, (Prod.mk.inj h).1⟩
 
@@ -33,7 +32,7 @@ theorem step_final_single (cfg : Cfg) (bufs : Bufs) (c : Chunk) (hf : isFinal c)
     twice in a row, the copy is delivered a second time, whatever its
     sequence number. -/
 theorem C10_finding_replay_single (cfg : Cfg) (bufs : Bufs) (c : Chunk) (hf : isFinal c)
-    (hempty : bufs.get c.req = []) (hfit : c.data.length ≤ cfg.maxMessageSize) :
+    (hempty : bufs.get c.req = []) (hfit : exceeds cfg.size0 c.data.length cfg.maxMessageSize = false) :
     runOuts cfg bufs [c, c] = [.merged c.req c.data, .merged c.req c.data] := by
   obtain ⟨h1, h2⟩ := step_final_single cfg bufs c hf hempty hfit
   obtain ⟨h3, _⟩ := step_final_single cfg (step cfg bufs c).1 c hf h2 hfit
@@ -44,7 +43,7 @@ theorem C10_finding_replay_single (cfg : Cfg) (bufs : Bufs) (c : Chunk) (hf : is
     delivered again when it is re-sent verbatim. -/
 theorem C10_finding_replay_sealed (unwrap : Bytes → Option Chunk) (cfg : Cfg) (bufs : Bufs)
     (frame : Bytes) (c : Chunk) (hu : unwrap frame = some c) (hf : isFinal c)
-    (hempty : bufs.get c.req = []) (hfit : c.data.length ≤ cfg.maxMessageSize) :
+    (hempty : bufs.get c.req = []) (hfit : exceeds cfg.size0 c.data.length cfg.maxMessageSize = false) :
     deliveredSealed (runSealed unwrap cfg bufs [frame, frame]) = [(c.req, c.data), (c.req, c.data)] := by
   obtain ⟨h1, h2⟩ := step_final_single cfg bufs c hf hempty hfit
   obtain ⟨h3, _⟩ := step_final_single cfg (step cfg bufs c).1 c hf h2 hfit
@@ -114,7 +113,7 @@ theorem C10_finding_seq_ignored (cfg : Cfg) (bufs : Bufs) (c : Chunk) (s : Nat) 
 /-- counterexample to "accepted sequence numbers strictly increase": numbers
     9, 3, 3 are accepted and all three messages delivered -/
 theorem C10_finding_reorder :
-    delivered (runOuts ⟨512, 2097152⟩ [] [⟨ctF, 9, 1, [1]⟩, ⟨ctF, 3, 2, [2]⟩, ⟨ctF, 3, 3, [3]⟩]) =
+    delivered (runOuts { maxChunkCount := 512, maxMessageSize := 2097152 } [] [⟨ctF, 9, 1, [1]⟩, ⟨ctF, 3, 2, [2]⟩, ⟨ctF, 3, 3, [3]⟩]) =
       [(1, [1]), (2, [2]), (3, [3])] := by decide
 
 /-! ### what the code does guarantee -/
@@ -162,7 +161,7 @@ theorem C10_duplicate_in_message (pre : List Chunk) (c : Chunk) (post : List Chu
     own -/
 theorem C10_guarantee_is_narrow :
     mergeChunks [⟨ctC, 5, 1, [1]⟩, ⟨ctC, 6, 1, [2]⟩, ⟨ctC, 5, 1, [1]⟩, ⟨ctF, 7, 1, [3]⟩] = [1, 2, 1, 3] ∧
-    delivered (runOuts ⟨512, 2097152⟩ [] [⟨ctC, 5, 1, [1]⟩, ⟨ctF, 6, 1, [2]⟩, ⟨ctF, 6, 1, [2]⟩]) =
+    delivered (runOuts { maxChunkCount := 512, maxMessageSize := 2097152 } [] [⟨ctC, 5, 1, [1]⟩, ⟨ctF, 6, 1, [2]⟩, ⟨ctF, 6, 1, [2]⟩]) =
       [(1, [1, 2]), (1, [2])] := by decide
 
 end Opcua.Props.C10
